@@ -41,8 +41,19 @@ func OracleC06(tr *Trace) Verdict {
 	p := tr.Plan
 	v := Verdict{Premise: true}
 	claims := tr.Claims()
-	rtt := p.MaxRTT()
-	B := 600*time.Millisecond + 4*rtt + time.Millisecond
+	// "plus operation latencies": the periodic check's Get and the Create that follows it (and as much again
+	// for a lost race). Operations that a rule makes slower than the instance's ordinary latencies count once
+	// each - a Create answered a second late delays the claim by that second, not by four.
+	rtt, slow := p.baseRTT(), time.Duration(0)
+	for _, in := range p.Instances {
+		for _, r := range in.Rules {
+			if r.SetLat {
+				slow += r.ReqLat + r.RespLat // (each such rule slows one operation down)
+			}
+		}
+		slow += in.SlowWinAnswer
+	}
+	B := 600*time.Millisecond + 4*rtt + slow + time.Millisecond
 	// lifecycle intervals per object: started (Start returned) .. stop call begins
 	type life struct {
 		obj, inst int
